@@ -323,7 +323,7 @@ func genC05Program(r *eng.Rng, th bool) *eng.Program {
 	var steps []eng.Step
 	for i, s := range p.Steps {
 		steps = append(steps, s)
-		if s.K == "batch" && r.Chance(1, 2) {
+		if s.K == "batch" && !gp.Lean && r.Chance(1, 2) {
 			steps = append(steps, eng.Step{K: "merge", A: "plain"}, eng.Step{K: "persist"})
 		}
 		if i == len(p.Steps)/2 && r.Chance(1, 3) {
